@@ -12,7 +12,7 @@ PROBE_FLAGS = {}
 
 PROPS["C01"] = dict(
     targets=[dict(name="C01", src="vp/props/C01.cpp", maxlen=12 + 4*12)],
-    quick=dict(cases=2500, floor=20000),
+    quick=dict(cases=5000, floor=40000),
     thorough=dict(cases=60000, floor=400000, fuzz=dict(time=420)),
     level="exploration",
     level_text=("Generated-input search (rapidcheck, 16 workers; plus libFuzzer in the thorough tier) over root shapes and view-operation sequences against an independent "
@@ -31,7 +31,7 @@ PROPS["C01"] = dict(
 
 PROPS["C02"] = dict(
     targets=[dict(name="C02", src="vp/props/C02.cpp", maxlen=12 + 4*8)],
-    quick=dict(cases=1500, floor=12000),
+    quick=dict(cases=2500, floor=20000),
     thorough=dict(cases=30000, floor=200000, fuzz=dict(time=360)),
     level="exploration",
     level_text=("Generated-input search over views produced by the C01 generator; the random-access iterator laws and the canonical-order model of elements() are checked "
@@ -49,7 +49,7 @@ PROPS["C02"] = dict(
 
 PROPS["C07"] = dict(
     targets=[dict(name="C07", src="vp/props/C07.cpp", maxlen=12 + 3*6)],
-    quick=dict(cases=2500, floor=20000),
+    quick=dict(cases=5000, floor=40000),
     thorough=dict(cases=60000, floor=400000),
     level="exploration",
     level_text=("Generated pairs and triples of operands of equal dimensionality 0..4, equal or perturbed extents, few element mutations over {0,1,2}, each operand independently "
@@ -66,7 +66,7 @@ PROPS["C07"] = dict(
 
 PROPS["C19"] = dict(
     targets=[dict(name="C19", src="vp/props/C19.cpp", maxlen=13 + 4*10)],
-    quick=dict(cases=2000, floor=16000),
+    quick=dict(cases=3000, floor=24000),
     thorough=dict(cases=40000, floor=300000, fuzz=dict(time=360)),
     level="exploration",
     level_text=("The C01 and C02 programs (view-operation sequences, element access through all paths, iterator and elements() laws) are generated over roots whose index "
@@ -84,12 +84,12 @@ PROPS["C19"] = dict(
 
 PROPS["C04"] = dict(
     targets=[dict(name="C04", src="vp/props/C04.cpp", maxlen=2 + 8*10)],
-    quick=dict(cases=2500, floor=20000),
+    quick=dict(cases=5000, floor=40000),
     thorough=dict(cases=50000, floor=400000, fuzz=dict(time=360)),
     level="exploration",
     level_text=("Stateful model-based testing: generated histories over a pool of four owning arrays (element int or an instrumented Tracked type, D in 0..4) of every constructor form, "
                 "copy/move construction and assignment, assignment from generated views of another pool member, from arrays of convertible element type, from nested initializer lists, "
-                "self-assignment, swap, decay/unary plus, element writes and clear; after every step every slot is compared element by element with its (extents, vector) model, storage "
+                "self-assignment, swap, decay/unary plus, element writes, clear and assignment through views of two arrays of equal extents (A() = B(), elements(), rows); after every step every slot is compared element by element with its (extents, vector) model, storage "
                 "ranges are pairwise disjoint, moves perform no element operation and transfer the buffer, and the Tracked registry shows no lifetime error. Bounded exploration."),
     technique="stateful model-based testing of generated operation histories against a (extents, vector) reference model (rapidcheck + libFuzzer)",
     rule=("case = element type {int, Tracked} x D in 0..4 + up to 10 history records (operation, target slot, source slot, argument bytes, 4 bytes of view program for the from-view forms); "
@@ -102,7 +102,7 @@ PROPS["C04"] = dict(
 
 PROPS["C06"] = dict(
     targets=[dict(name="C06", src="vp/props/C06.cpp", maxlen=2 + 8*10)],
-    quick=dict(cases=2500, floor=20000),
+    quick=dict(cases=5000, floor=40000),
     thorough=dict(cases=50000, floor=400000, fuzz=dict(time=360)),
     level="exploration",
     level_text=("Stateful model-based testing: generated histories of reextent(x), reextent(x, v), moved reextent, reextent to the current extents, clear, = {}, reshape, assign(first,last), "
@@ -120,7 +120,7 @@ PROPS["C06"] = dict(
 
 PROPS["C08"] = dict(
     targets=[dict(name="C08", src="vp/props/C08.cpp", maxlen=2 + 8*10)],
-    quick=dict(cases=2500, floor=20000),
+    quick=dict(cases=5000, floor=40000),
     thorough=dict(cases=50000, floor=400000, fuzz=dict(time=360)),
     level="exploration",
     level_text=("Stateful testing with an instrumented element type (registry of live objects: construction over a live object, use or destruction of a dead one, double destruction are "
@@ -137,7 +137,7 @@ PROPS["C08"] = dict(
 
 PROPS["C09"] = dict(
     targets=[dict(name="C09", src="vp/props/C09.cpp", maxlen=3 + 8*6, kinds=["rc"])],
-    quick=dict(cases=2000, floor=16000),
+    quick=dict(cases=3000, floor=24000),
     thorough=dict(cases=120000, floor=1000000),
     level="fault_enumeration",
     level_text=("Fault enumeration: for each generated history (<= 6 operations of the C08 machine) a fault-free dry run counts the events (allocations, element default/copy/move "
@@ -154,7 +154,7 @@ PROPS["C09"] = dict(
 
 PROPS["C10"] = dict(
     targets=[dict(name="C10", src="vp/props/C10.cpp", maxlen=3 + 8*8)],
-    quick=dict(cases=2500, floor=20000),
+    quick=dict(cases=5000, floor=40000),
     thorough=dict(cases=50000, floor=400000, fuzz=dict(time=300)),
     level="exploration",
     level_text=("Stateful testing over allocator configurations: the eight propagate_on_container_{copy_assignment,move_assignment,swap} combinations of a stateful observing allocator "
@@ -172,7 +172,7 @@ PROPS["C10"] = dict(
 
 PROPS["C05"] = dict(
     targets=[dict(name="C05", src="vp/props/C05.cpp", maxlen=13 + 4*6)],
-    quick=dict(cases=2000, floor=16000),
+    quick=dict(cases=4000, floor=32000),
     thorough=dict(cases=40000, floor=300000, fuzz=dict(time=360)),
     level="exploration",
     level_text=("Generated destination views (C01 generator over mutable roots with known contents; array_ref roots carry ASan-poisoned guard zones) and shape-matched sources built by construction "
@@ -190,7 +190,7 @@ PROPS["C05"] = dict(
 
 PROPS["C03"] = dict(
     targets=[dict(name="C03", src="vp/props/C03.cpp", maxlen=15 + 4*5)],
-    quick=dict(cases=2000, floor=16000),
+    quick=dict(cases=4000, floor=32000),
     thorough=dict(cases=40000, floor=300000, fuzz=dict(time=300)),
     level="exploration",
     level_text=("Differential testing: one of the 20 listed standard algorithms is applied to the begin()/end() range (element iterators for 1-D views, proxy rows for 2-D views) or the elements() "
@@ -209,7 +209,7 @@ PROPS["C12"] = dict(
     targets=[dict(name="C12int", src="vp/props/C12.cpp", defs=["VP_C12_T=0"], libs=["-lopenblas"], maxlen=12 + 4*5),
              dict(name="C12struct", src="vp/props/C12.cpp", defs=["VP_C12_T=1"], libs=["-lopenblas"], maxlen=12 + 4*5),
              dict(name="C12complex", src="vp/props/C12.cpp", defs=["VP_C12_T=2"], libs=["-lopenblas"], maxlen=12 + 4*5)],
-    quick=dict(cases=2000, floor=16000),
+    quick=dict(cases=4000, floor=32000),
     thorough=dict(cases=40000, floor=300000, fuzz=dict(time=240)),
     level="exploration",
     level_text=("Generated source views (C01 generator over mutable roots of int, a struct {int a; short b; short c;} and std::complex<double>) and a generated projection: element_transformed "
@@ -231,7 +231,7 @@ PROPS["C11"] = dict(
              dict(name="C11containers", src="vp/props/C11m.cpp", maxlen=2 + 8*10),
              dict(name="C11assign", src="vp/props/C11.cpp", defs=["VP_C11_PROGRAM=3"], maxlen=13 + 4*10),
              dict(name="C11compare", src="vp/props/C11.cpp", defs=["VP_C11_PROGRAM=4"], maxlen=13 + 4*10)],
-    quick=dict(cases=1500, floor=12000),
+    quick=dict(cases=2500, floor=20000),
     thorough=dict(cases=30000, floor=200000, fuzz=dict(time=240)),
     level="exploration",
     level_text=("Differential/configuration testing: the generated programs of C01 (view algebra, all access paths), C02 (iterator, elements() and cursor laws) and the C04/C06 state machine "
@@ -242,7 +242,7 @@ PROPS["C11"] = dict(
     technique="differential testing of generated programs across pointer families (raw / offset / bounds-checking) with transcript equality and a checking pointer as oracle (rapidcheck + libFuzzer)",
     rule=("case = pointer family bit + the generated case of the replayed program (C01: up to 10 view operations; C02: up to 8; containers: up to 10 history records over 4 arrays of int, D in 1..3); "
           "non-trivial = as in the replayed program; distinct = hash of decoded case text"),
-    assumptions=COMMON_ASSUME + ["the C03/C05/C07 programs are not replayed over fancy pointers (their harnesses build operands over raw storage)", "allocators with fancy *references* (proxy references) are out of scope"],
+    assumptions=COMMON_ASSUME + ["the C03 program (standard algorithms) is not replayed over fancy pointers", "allocators with fancy *references* (proxy references) are out of scope"],
 )
 
 PROPS["C20"] = dict(
@@ -250,7 +250,7 @@ PROPS["C20"] = dict(
              dict(name="C20ndebug", src="vp/props/C20pos.cpp", defs=["NDEBUG"], maxlen=13 + 8*8, same_seed_as="C20default"),
              dict(name="C20assertdisable", src="vp/props/C20pos.cpp", defs=["BOOST_MULTI_ASSERT_DISABLE"], maxlen=13 + 8*8, same_seed_as="C20default"),
              dict(name="C20negative", src="vp/props/C20neg.cpp", maxlen=13 + 4*5, kinds=["rc"])],
-    quick=dict(cases=1200, floor=9000),
+    quick=dict(cases=2000, floor=16000),
     thorough=dict(cases=25000, floor=180000, fuzz=dict(time=240)),
     level="exploration",
     level_text=("Positive half: the generated programs of C01, C02, the C04/C06 state machine and the C06 program on re-based arrays are built three times (assertions on, -DNDEBUG, -DBOOST_MULTI_ASSERT_DISABLE) and run on the "
@@ -272,7 +272,7 @@ PROPS["C13"] = dict(
              dict(name="C13complex", src="vp/props/C13.cpp", defs=["VP_C13_T=1"], libs=["-lopenblas"], kinds=["rc"]),
              dict(name="C13float", src="vp/props/C13.cpp", defs=["VP_C13_T=2"], libs=["-lopenblas"], kinds=["rc"]),
              dict(name="C13cfloat", src="vp/props/C13.cpp", defs=["VP_C13_T=3"], libs=["-lopenblas"], kinds=["rc"])],
-    quick=dict(cases=2500, floor=20000),
+    quick=dict(cases=4000, floor=32000),
     thorough=dict(cases=20000, floor=150000),
     level="exploration",
     level_text=("Differential testing against naive loops on exact (small-integer) data: operation x form x element type x per-operand layout x scalars are generated; every matrix operand is "
@@ -294,7 +294,7 @@ PROPS["C14"] = dict(
     targets=[dict(name="C14potrf", src="vp/props/C14.cpp", defs=["VP_C14_R=0"], libs=["-llapack", "-lopenblas"], kinds=["rc"]),
              dict(name="C14geqrf", src="vp/props/C14.cpp", defs=["VP_C14_R=1"], libs=["-llapack", "-lopenblas"], kinds=["rc"]),
              dict(name="C14gesvd", src="vp/props/C14.cpp", defs=["VP_C14_R=2"], libs=["-llapack", "-lopenblas"], kinds=["rc"])],
-    quick=dict(cases=2500, floor=20000),
+    quick=dict(cases=5000, floor=40000),
     thorough=dict(cases=50000, floor=400000),
     level="exploration",
     level_text=("Generated inputs per routine with a reconstruction oracle: potrf (double and complex<double>): A = M M^H + n I from small integers, optionally with a planted non-positive leading "
@@ -326,7 +326,7 @@ PROPS["C15"] = dict(
 
 PROPS["C17"] = dict(
     targets=[dict(name="C17", src="vp/props/C17.cpp", libs=["-lboost_serialization"], maxlen=12)],
-    quick=dict(cases=2500, floor=20000),
+    quick=dict(cases=5000, floor=40000),
     thorough=dict(cases=50000, floor=400000, fuzz=dict(time=240)),
     level="exploration",
     level_text=("Round-trip testing through real Boost.Serialization text, binary and XML archives against the generating (extents, values) model, never the library's own ==: owning arrays of "
@@ -347,7 +347,7 @@ PROPS["C18"] = dict(
     targets=[dict(name="C18i", src="vp/props/C18.cpp", defs=["VP_C18_T=0"], flags=_MPI_INC, libs=_MPI_LIB, maxlen=52),
              dict(name="C18d", src="vp/props/C18.cpp", defs=["VP_C18_T=1"], flags=_MPI_INC, libs=_MPI_LIB, maxlen=52),
              dict(name="C18ib", src="vp/props/C18.cpp", defs=["VP_C18_T=0", "VP_C18_BASED=1"], flags=_MPI_INC, libs=_MPI_LIB, maxlen=52)],
-    quick=dict(cases=1500, floor=12000),
+    quick=dict(cases=2500, floor=20000),
     thorough=dict(cases=40000, floor=300000, fuzz=dict(time=240)),
     level="exploration",
     level_text=("Single-process differential testing of the MPI adaptor against the view model of C01: a root array / static_array / array_ref (const or not, D 1..4) is turned into a view by a generated "
